@@ -11,6 +11,7 @@ mod props_flat;
 mod props_seq;
 mod report;
 mod sqldrv;
+mod sqlmodel;
 
 fn lookup(engine: &str) -> Option<par::WorkerFn> {
     match engine {
@@ -21,6 +22,7 @@ fn lookup(engine: &str) -> Option<par::WorkerFn> {
         "btree" => Some(engines::btree::worker),
         "tuple" => Some(engines::tuple::worker),
         "values" => Some(engines::values::worker),
+        "sqlenum" => Some(engines::sqlenum::worker),
         _ => None,
     }
 }
@@ -34,6 +36,7 @@ fn check(prop: &str, tier: &str) -> i32 {
         "C03" => props_seq::c03(tier),
         "C20" => props_flat::c20(tier),
         "C18" => props_flat::c18(tier),
+        "C05" => props_flat::c05(tier),
         "C19" => props_flat::c19(tier),
         "C17" => props_comp::c17(tier),
         "C10" => props_comp::c10(tier),
